@@ -431,8 +431,11 @@ def run_p_case(c, res):
                                      "mhl": c["mib_hop"]}, {"sn": sn_next, "so_pv": ego, "req_addr": {"m": 0, "st": 5, "mid": mid_of(77)}},
                             b"", c["mib_hop"], c["mib_life"] * 1000)
             elif kind == "ls_reply":
-                pkt = W.enc_packet({"version": 1, "nh": 1, "lt_mult": 60, "lt_base": 1, "rhl": 5},
-                                   {"nh": 0, "ht": W.HT_LS, "hst": 0, "tc": {"scf": 0, "co": 0, "id": 0}, "mobile": 1, "pl": 0, "mhl": 5},
+                # the request comes from a station with its own configuration: traffic class, hop budget and lifetime of the
+                # REQUEST are the requester's business and must not show up in the reply this station originates
+                req_mhl = c["rhl"] if c["hop"] % 2 else 255
+                pkt = W.enc_packet({"version": 1, "nh": 1, "lt_mult": 1 + c["tcid"] % 60, "lt_base": c["co"] + 1, "rhl": c["rhl"]},
+                                   {"nh": 0, "ht": W.HT_LS, "hst": 0, "tc": tcd, "mobile": 1 - c["mobile"], "pl": 0, "mhl": req_mhl},
                                    {"sn": 11, "so_pv": phantom, "req_addr": {"m": 0, "st": c["st"], "mid": mid_of(1)}})
                 w.ether.inject("A", pkt)
                 w.settle()
